@@ -64,6 +64,15 @@ def skeletons(n):
                 parts = list(opnds)
                 s = '=' + ''.join((('(' if k == i else '') + parts[k] + (')' if k == j else '') + (ops[k] if k < n else '')) for k in range(n + 1))
                 out.append((s, dict(base, decor='parsub', at=i, to=j)))
+        # nested brackets: an outer group [i..j] whose content starts (or ends) with an inner group
+        for i in range(n + 1):
+            for j in range(i + 2, n + 1):
+                for k in range(i + 1, j):
+                    parts = list(opnds)
+                    lead = '=' + ''.join((('((' if m == i else '') + parts[m] + (')' if m == k else '') + (')' if m == j else '') + (ops[m] if m < n else '')) for m in range(n + 1))
+                    trail = '=' + ''.join((('(' if m == i else '') + ('(' if m == k else '') + parts[m] + ('))' if m == j else '') + (ops[m] if m < n else '')) for m in range(n + 1))
+                    out.append((lead, dict(base, decor='nestlead', at=i, to=j)))
+                    out.append((trail, dict(base, decor='nesttrail', at=i, to=j)))
     return out
 
 
